@@ -87,6 +87,22 @@ def build(pid, log):
             if not gen_ok:
                 log(r.stdout[-3000:])
                 info['notes'].append('theorems over the regenerated kernels (FCA.Props.%sGen) no longer check' % pid)
+                # which theorems of the file the errors fall into (the whole file counts as not checked, this says where it broke)
+                try:
+                    lines = open(gen).read().split('\n')
+                    starts = [(i + 1, mt.group(1)) for i, l in enumerate(lines)
+                              for mt in [re.match(r'\s*(?:theorem|def)\s+(\w+)', l)] if mt]
+                    broke = []
+                    for mt in re.finditer(r'error: \S*%sGen\.lean:(\d+):' % pid, r.stdout):
+                        ln = int(mt.group(1))
+                        owner = [n for s0, n in starts if s0 <= ln]
+                        if owner and owner[-1] not in broke:
+                            broke.append(owner[-1])
+                    if broke:
+                        info['broken_at'] = broke
+                        info['notes'].append('errors inside: ' + ', '.join(broke))
+                except Exception:       # diagnostics only
+                    pass
             src_files.append(gen)
         # obligations = theorems named <pid>_* in the property files
         names = []
@@ -234,13 +250,14 @@ def main():
             small['shrunk_from'] = run.violation.get('requests', [])[:1]
             run.violation = small
         run.violation['failed_theorems'] = info['failed']
+        run.violation['proof_errors_inside'] = info.get('broken_at')
         run.violation['tree'] = tree_hash()
         path = core.write_replay(pid, run.violation)
         print('VIOLATION property=%s replay=%s' % (pid, path))
         status = 1
     elif api_broken is not None:
         rec = {'property': pid, 'what': 'correspondence no longer checks: ' + api_broken,
-               'failed_theorems': info['failed'], 'requests': [], 'tree': tree_hash()}
+               'failed_theorems': info['failed'], 'proof_errors_inside': info.get('broken_at'), 'requests': [], 'tree': tree_hash()}
         path = core.write_replay(pid, rec)
         print('VIOLATION property=%s replay=%s no-failing-input-found' % (pid, path))
         status = 1
@@ -250,7 +267,7 @@ def main():
         # the property is no longer shown to hold for this source
         what = ('theorems about the model no longer check' if not info.get('pinned_ok', True)
                 else 'the extraction tie no longer checks (theorems over the code regenerated from the current source)')
-        rec = {'property': pid, 'what': what, 'failed_theorems': info['failed'],
+        rec = {'property': pid, 'what': what, 'failed_theorems': info['failed'], 'proof_errors_inside': info.get('broken_at'),
                'requests': [], 'tree': tree_hash(), 'notes': info['notes'], 'extraction': info.get('extraction'),
                'searched': {'evaluations': run.evaluations, 'distinct_nontrivial': len(run.distinct), 'tier': run.tier}}
         path = core.write_replay(pid, rec)
